@@ -68,6 +68,10 @@ def handle (j : Json) : Except String Json := do
     match Rio.Time.requestTime c with
     | .ok v => return Json.mkObj [("m", Json.mkObj [("panics", Json.bool false), ("value", toJson v)])]
     | .panic => return Json.mkObj [("m", Json.mkObj [("panics", Json.bool true)])]
+  else if fam == "deep_tree" then
+    -- stack depth is outside the model (Lean's structural recursion cannot see it): the driver abstains; an abort is the
+    -- known finding deep-tree-stack-overflow, decided by the harness oracle alone
+    return Json.mkObj [("abstain", Json.bool true)]
   else
     -- search families: the model's prediction is "returns normally"
     return Json.mkObj [("m", Json.mkObj [("ok", Json.bool true)])]
